@@ -405,13 +405,17 @@ func runC15(cfg config) {
 	for _, tl := range []struct {
 		lit string
 		us  int64
-	}{{"10:30:15", 37815000000}, {"00:00:00", 0}, {"23:59:59.999", 86399999000}, {"00:00:00.001", 1000}} {
+	}{{"10:30:15", 37815000000}, {"00:00:00", 0}, {"23:59:59.999", 86399999000}, {"00:00:00.001", 1000}, {"10:30:15.000", 37815000000}, {"00:00:00.000", 0}, {"12:00:00.500", 43200500000}, {"23:59:59.000", 86399000000}} {
 		tv, err := system.ParseTime(tl.lit)
 		ok := false
 		if err == nil {
 			pt := tv.ToProtoTime()
 			back := system.TimeFromProto(pt)
-			ok = pt.ValueUs == tl.us && back.Equal(tv)
+			wantPrec := dtpb.Time_SECOND
+			if strings.Contains(tl.lit, ".") {
+				wantPrec = dtpb.Time_MILLISECOND // the precision is the literal's, also when the fraction is .000
+			}
+			ok = pt.ValueUs == tl.us && back.Equal(tv) && pt.Precision == wantPrec && back.String() == tv.String()
 		}
 		addRound("RSysProtoSys", true, 0, "Time "+tl.lit+" -> element: value_us within the day, and back", ok)
 	}
